@@ -779,6 +779,7 @@ class LanczosEvolution(LanczosGroundState):
 
         """
         self.delta = delta
+        self._cache = []  # clear vectors left from a previous call, they would be used for `reortho`
         N = self._build_krylov()
         if N > 1:
             logger.debug('Lanczos N=%d, |result_krylov[-1]|=%.3e', N, abs(self._result_krylov[-1]))
